@@ -3,7 +3,7 @@ can never open, close or alter markup.
 
 Engine E2: twisted.web._flatten is recompiled from /repo's source onto LBytes (bytes literals, the
 bytes/BytesIO names and every `x.encode(...)` call become shims that keep ASCII text symbolic); the
-escaping functions and flattenString (two fixed tree shapes) run on symbolic leaves.  The oracle is
+escaping functions and flatten() (two fixed tree shapes) run on symbolic leaves.  The oracle is
 a reference tokenizer written here from the WHATWG HTML tokenization spec (data, tag, attribute and
 all comment states) plus the XML 1.0 rules for the end of comments and CDATA sections.
 """
@@ -19,10 +19,10 @@ LEVEL = "model_checking"
 ENCODED = ["twisted.web._flatten:escapeForContent", "twisted.web._flatten:attributeEscapingDoneOutside",
            "twisted.web._flatten:writeWithAttributeEscaping", "twisted.web._flatten:escapedCDATA",
            "twisted.web._flatten:escapedComment", "twisted.web._flatten:_flattenElement",
-           "twisted.web._flatten:_flattenTree", "twisted.web._flatten:flattenString"]
-BOUNDS = {"quick": {"n": 4, "m": 3}, "thorough": {"n": 6, "m": 5}}
+           "twisted.web._flatten:_flattenTree", "twisted.web._flatten:flatten"]
+BOUNDS = {"quick": {"n": 4, "nc": 6, "m": 3}, "thorough": {"n": 6, "nc": 8, "m": 5}}
 B = {}
-BOUNDS_TEXT = ("leaf functions: content of <= n characters, given as str (code points < 128) and as bytes (all 256 "
+BOUNDS_TEXT = ("leaf functions: content of <= n characters (CDATA: <= nc), given as str (code points < 128) and as bytes (all 256 "
                "values); trees <p b=Y>{slot X}</p> and <div><!--X--><a href={<i>Y</i>}></a></div> with "
                "len(X) + len(Y) <= m")
 OUTSIDE = ["non-ASCII str content: its utf-8 encoding is done by C code (multi-byte utf-8 sequences contain no "
@@ -38,7 +38,7 @@ OUTSIDE = ["non-ASCII str content: its utf-8 encoding is done by C code (multi-b
            "are fixed valid names"]
 ASSUMPTIONS = ["LBytes reproduces bytes semantics for replace/startswith/slicing/join (vlib.lbytes.selftest) and the "
                "lifted module agrees with the real one on the vectors below (results and observations compared)"]
-EXPLANATION = ("lifted real escaping functions and flattenString on symbolic content; output re-tokenized by a "
+EXPLANATION = ("lifted real escaping functions and flatten() on symbolic content; output re-tokenized by a "
                "reference HTML5/XML tokenizer and compared with the input")
 
 
@@ -62,6 +62,22 @@ def _alpha(c):
 
 def _lower(c):
     return chr(ord(c) + 32) if "A" <= c <= "Z" else c
+
+
+def _chars(doc):
+    """a document given as str or as a list of str pieces -> list of characters.  Its length and
+    indexing are concrete on every path, and the characters of concrete pieces (the markup the
+    flattener writes itself) stay plain python strings: only the escaped leaves are symbolic, so
+    only comparisons on them reach the solver"""
+    if isinstance(doc, str):
+        doc = [doc]
+    out = []
+    for piece in doc:
+        if lbytes._is_conc(piece):
+            out.extend(piece)
+        else:
+            out.extend([ch for ch in piece])
+    return out
 
 
 def _at(doc, i, lit):
@@ -93,9 +109,7 @@ def _charref(doc, i):
 def html_tokens(doc):
     """tokens: ("text", s) ("start", name, [(attr, value)...], selfclosing) ("end", name)
     ("comment", data) ("doctype",) ("err", what)"""
-    # work on a list of characters: its length and indexing are concrete on every path (indexing a
-    # symbolic str of symbolic length costs several solver queries per character)
-    doc = [ch for ch in doc]
+    doc = _chars(doc)
     toks = []
     text = []
     n = len(doc)
@@ -438,7 +452,7 @@ def html_tokens(doc):
 def xml_cdata_text(doc):
     """XML 1.0 [18]-[21]: a CDATA section ends at the first ']]>'.  The whole of `doc` must be a
     sequence of CDATA sections; returns their concatenated character data, or None"""
-    doc = [ch for ch in doc]
+    doc = _chars(doc)
     out = []
     pos = 0
     n = len(doc)
@@ -466,7 +480,7 @@ def content(x: str, asbytes: bool) -> bool:
     """
     esc = t(L.escapeForContent(_in(x, asbytes)))
     api.obs(esc)
-    toks = html_tokens("<p>" + esc + "</p>")
+    toks = html_tokens(["<p>", esc, "</p>"])
     cover()
     if len(x) == 0:
         return toks == [("start", "p", [], False), ("end", "p")]
@@ -481,9 +495,9 @@ def attribute(x: str, asbytes: bool) -> bool:
     out = []
     w = L.writeWithAttributeEscaping(out.append)
     w(L.attributeEscapingDoneOutside(_in(x, asbytes)))
-    esc = "".join([t(o) for o in out])
+    esc = [t(o) for o in out]
     api.obs(esc)
-    toks = html_tokens('<a b="' + esc + '">')
+    toks = html_tokens(['<a b="'] + esc + ['">'])
     cover()
     return toks == [("start", "a", [("b", x)], False)]
 
@@ -495,35 +509,46 @@ def comment(x: str, asbytes: bool) -> bool:
     """
     esc = t(L.escapedComment(_in(x, asbytes)))
     api.obs(esc)
-    doc = "<!--" + esc + "-->"
-    toks = html_tokens(doc)
+    toks = html_tokens(["<!--", esc, "-->"])
     cover()
     # HTML: exactly one comment token, ending at the final '-->', nothing before or after it
     if toks != [("comment", esc)]:
         return False
-    # XML: the comment ends at the first '-->'
+    # XML: the comment ends at the first '-->', and its text must not end in '-' ('--->' is not a
+    # comment end in XML 1.0 [15]; escapedComment documents that it pads a trailing dash)
+    if len(esc) > 0 and esc[len(esc) - 1] == "-":
+        return False
     return (esc + "-->").find("-->") == len(esc)
 
 
 def cdata(x: str, asbytes: bool) -> bool:
     """
-    pre: len(x) <= B['n'] and all(ord(c) < (256 if asbytes else 128) for c in x)
+    pre: len(x) <= B['nc'] and all(ord(c) < (256 if asbytes else 128) for c in x)
     post: _
     """
     esc = t(L.escapedCDATA(_in(x, asbytes)))
     api.obs(esc)
-    got = xml_cdata_text("<![CDATA[" + esc + "]]>")
+    got = xml_cdata_text(["<![CDATA[", esc, "]]>"])
     cover()
     return got is not None and got == x
 
 
+if not L.__real__:
+    # the flattener joins what it writes into one buffer before delivering it; with a zero buffer
+    # size every write is delivered as its own piece (same bytes, same order), which keeps the
+    # literal markup concrete for the tokenizer.  The replay world keeps the real 64 KiB buffer.
+    L.__ns__["BUFFER_SIZE"] = 0
+
+
 def _flat(root):
+    """flatten(root) -> list of text pieces in output order (None on error)"""
+    pieces = []
     res = []
-    d = L.flattenString(None, root)
-    d.addCallbacks(lambda r: res.append(t(r)), lambda f: res.append(None))
-    if len(res) != 1:
+    d = L.flatten(None, root, lambda bs: pieces.append(t(bs)))
+    d.addCallbacks(lambda r: res.append(True), lambda f: res.append(False))
+    if res != [True]:
         return None
-    return res[0]
+    return pieces
 
 
 def tree_p(x: str, y: str) -> bool:
@@ -534,7 +559,7 @@ def tree_p(x: str, y: str) -> bool:
     # <p b="Y">X</p>, X arriving through a slot
     root = Tag("p", attributes={"b": y}, children=[slot("s")]).fillSlots(s=x)
     doc = _flat(root)
-    api.obs(doc)
+    api.obs(None if doc is None else "".join(doc))
     cover()
     if doc is None:
         return False
@@ -551,7 +576,7 @@ def tree_div(x: str, y: str) -> bool:
     # <div><!--X--><a href="{<i>Y</i>}"></a></div>: a comment, and an element inside an attribute
     root = Tag("div", children=[Comment(x), Tag("a", attributes={"href": Tag("i", children=[y])})])
     doc = _flat(root)
-    api.obs(doc)
+    api.obs(None if doc is None else "".join(doc))
     cover()
     if doc is None:
         return False
@@ -570,14 +595,26 @@ def tree_div(x: str, y: str) -> bool:
     return inner == exp
 
 
-def _leaf_shards(tier):
-    n = BOUNDS[tier]["n"]
-    out = []
-    for ab in (False, True):
-        out.append(("asbytes == %s" % ab, "len(x) <= %d" % (n - 2)))
-        out.append(("asbytes == %s" % ab, "len(x) == %d" % (n - 1)))
-        out.append(("asbytes == %s" % ab, "len(x) == %d" % n))
-    return out
+_C4 = ["x[0] <= '&'", "'&' < x[0] <= '-'", "'-' < x[0] <= '<'", "x[0] > '<'"]
+_C2 = ["x[0] <= '-'", "x[0] > '-'"]
+
+
+def _leaf_shards(split, key="n"):
+    def shards(tier):
+        n = BOUNDS[tier][key]
+        out = []
+        for ab in (False, True):
+            out.append(("asbytes == %s" % ab, "len(x) <= %d" % (n - 2)))
+            out.append(("asbytes == %s" % ab, "len(x) == %d" % (n - 1)))
+            cls = [None]
+            if split:
+                cls = _C2 if ab else _C4
+                if tier != "quick":
+                    cls = [c + " and " + c2.replace("x[0]", "x[1]") for c in _C4 for c2 in _C4]
+            for c in cls:
+                out.append(("asbytes == %s" % ab, "len(x) == %d" % n) + ((c,) if c else ()))
+        return out
+    return shards
 
 
 def _tree_shards(tier):
@@ -588,10 +625,10 @@ def _tree_shards(tier):
 
 
 HARNESSES = [
-    H(content, shards=_leaf_shards, timeout={"quick": 80, "thorough": 1500}),
-    H(attribute, shards=_leaf_shards, timeout={"quick": 80, "thorough": 1500}),
-    H(comment, shards=_leaf_shards, timeout={"quick": 80, "thorough": 1500}),
-    H(cdata, shards=_leaf_shards, timeout={"quick": 80, "thorough": 1500}),
+    H(content, shards=_leaf_shards(True), timeout={"quick": 80, "thorough": 1500}),
+    H(attribute, shards=_leaf_shards(True), timeout={"quick": 80, "thorough": 1500}),
+    H(comment, shards=_leaf_shards(True), timeout={"quick": 80, "thorough": 1500}),
+    H(cdata, shards=_leaf_shards(False, "nc"), timeout={"quick": 80, "thorough": 1500}),
     H(tree_p, shards=_tree_shards, timeout={"quick": 80, "thorough": 1500}),
     H(tree_div, shards=_tree_shards, timeout={"quick": 80, "thorough": 1500}),
 ]
